@@ -313,7 +313,7 @@ def Consistent (o : Oracle) (k : Key) : Prop :=
   | .ed448 x => OkpChecked o .ed448 x k.priv
   | .x25519 x => OkpChecked o .x25519 x k.priv
   | .x448 x => OkpChecked o .x448 x k.priv
-  | .none => ∃ b, k.priv = .oct b
+  | .none => (∃ b, k.priv = .oct b) ∧ ∀ c0 rest, k.x5c ≠ some (c0 :: rest)   -- symmetric: no chain at all
   | _ => False
 
 /-- **jwk_accept_consistent** — `jwk.ParseMap` (hence ParseKey, UnmarshalJSON, every kept member of
@@ -356,9 +356,15 @@ theorem jwk_accept_consistent (o : Oracle) (m : Obj) (k : Key) (h : (parseMap m)
         · simp only [h4, if_true] at h
           unfold parseOct at h
           obtain ⟨b, _, h⟩ := PO.run_bind_eq_ok _ _ _ _ h
-          simp only [PO.run_pure, Outcome.ok.injEq] at h
-          subst h
-          exact ⟨by simp [Consistent, hpub], hth, fun hn => absurd hpub hn⟩
+          split at h
+          · simp at h
+          · rename_i hx
+            simp only [PO.run_pure, Outcome.ok.injEq] at h
+            subst h
+            refine ⟨?_, hth, fun hn => absurd hpub hn⟩
+            have hc : ∀ c0 rest, key.x5c ≠ some (c0 :: rest) := fun c0 rest hc => hx c0 rest hc
+            simp only [Consistent, hpub]
+            exact ⟨⟨b, rfl⟩, hc⟩
         · simp [h4] at h
 
 /-! ## cose.ParseMap -/
